@@ -445,6 +445,8 @@ def run(ch, idx, tier):
             bump("fault:unrelated_plain_run")
 
     # ---- client bodies ----------------------------------------------------------------------
+    returned = []  # (client, Result as returned by run_sim, digest at the moment it was returned)
+
     def check_inputs(c, op):
         for k2, v in c["inputs"].items():
             now = flatten(v)
@@ -456,6 +458,8 @@ def run(ch, idx, tier):
         d = digest_result(res)
         ref_ = ref if ref is not None else c["ref"]
         c["results"] += 1
+        if op == "run_sim":
+            returned.append((c, res, d))
         bump("evaluations")
         bump("model_years_x1000", int(1000 * (res.t[-1] - res.t[0])))
         oplog.append([c["k"], op, d])
@@ -476,8 +480,22 @@ def run(ch, idx, tier):
             if op == "run_sim":
                 if edited.get(c["k"]):
                     continue  # a run from edited inputs is a different configuration; nothing to compare it with
-                R = P.run_sim(parset, progset, instr)
+                # every second client stores its run in the project under an explicit (re-used) name: storing a run
+                # is bookkeeping, it must not touch a Result handed out earlier (to this client or to one sharing the project)
+                named = (c["k"] + idx) % 2 == 0
+                R = P.run_sim(parset, progset, instr, store_results=True, result_name="named run") if named else P.run_sim(parset, progset, instr)
                 check_result(c, R, "run_sim")
+                if named:
+                    # ... and runs again under the same name after touching up a calibration factor (on a copy)
+                    q_ = parset.copy()
+                    for nm_ in P.framework.pars.index:
+                        if nm_ in q_.pars and P.framework.transitions.get(nm_):
+                            q_.pars[nm_].meta_y_factor = 0.5 * q_.pars[nm_].meta_y_factor
+                    try:
+                        P.run_sim(q_, progset, instr, store_results=True, result_name="named run")
+                        bump("probe:second_stored_run_under_the_same_name")
+                    except at.BadInitialization:
+                        pass
             elif op == "build":
                 M = amodel.Model(P.settings, P.framework, parset, progset, instr)
             elif op == "deepcopy":
@@ -613,6 +631,11 @@ def run(ch, idx, tier):
                 violate("client_raises", where, {"client": c["k"], "project": c["name"], "variant": c["variant"], "template": c["template"], "exception": f"{type(bc.exc).__name__}: {str(bc.exc)[:300]}", "n_clients": K})
     finally:
         shutil.rmtree(scratch, ignore_errors=True)
+    for c_, res_, d_ in returned:
+        # the outputs of a run stay what they were when it returned, whatever ran afterwards in the process
+        if digest_result(res_) != d_:
+            violate("returned_result_changed_by_later_run", "run_sim", {"client": c_["k"], "project": c_["name"], "variant": c_["variant"], "template": c_["template"], "n_clients": K})
+    bump("probe:returned_results_rechecked_at_end", len(returned))
 
     in_process_switches = b.switches
     bump("context_switches", b.switches)
